@@ -59,7 +59,7 @@ void harness(void)
 	if (ND_BOOL()) {
 		a->data_block = malloc(BS);
 		VP_ASSUME(a->data_block != NULL);
-		for (int i = 0; i < BS; ++i) a->data_block[i] = ND_U8();
+		for (int i = 0; i < BS; ++i) a->data_block[i] = ND_U8();	/* superset of what get_block() leaves (zeros behind data_blk_size) */
 		a->data_blk_size = ND_SZ();
 		VP_ASSUME(a->data_blk_size <= BS);
 		a->current_block = ND_U64();
@@ -86,9 +86,13 @@ void harness(void)
 	VP_ASSERT((a->frag_block == NULL) == (b->frag_block == NULL) && (a->frag_block == NULL || a->frag_block != b->frag_block), "fragment cache deep-copied");
 	if (a->data_block != NULL) {
 		VP_ASSERT(b->data_blk_size == a->data_blk_size && b->current_block == a->current_block, "cache tags copied");
+		/* sqfs_data_reader_read() copies up to block_size - offset bytes out of a
+		   cached block whatever data_blk_size says (get_block() always allocates
+		   a zeroed block_size buffer): the copy must offer the same */
+		VP_ASSERT(VP_R_OK(b->data_block, BS), "C19: the copy's data cache holds one full block like the original's (readers copy up to block_size bytes out of it)");
 		for (size_t i = 0; i < BS; ++i)
-			if (i < a->data_blk_size)
-				VP_ASSERT(a->data_block[i] == b->data_block[i], "cached data block content equal");
+			if (i < a->data_blk_size || VP_R_OK(b->data_block, BS))
+				VP_ASSERT(a->data_block[i] == b->data_block[i], "cached data block content equal over the whole block");
 		VP_REACH("with_data_cache");
 	}
 	if (a->frag_block != NULL) {
